@@ -40,7 +40,7 @@ LEVEL_NOTE = "Trusted: scipy.stats chi-square; the probe moves (return False, to
 DESIGN_REF = "DESIGN.md section 3, C09"
 
 
-WORDS = ["zeta", "alpha", "mu", "beta", "omega", "delta"]
+WORDS = ["zeta", "alpha", "mu", "beta", "omega", ""]  # the empty string is a name like any other
 
 
 def name_of(case, i):
@@ -231,6 +231,20 @@ def run_steps(case):
                     return {"labels": labels, "nontrivial": True, "key": key, "violation": {"kind": v[0] + ":run", "detail": f"table={case['table']} cycles={case['cycles']}: {v[1]}"}}
                 if any(h[1] is not None for h in mc2.move_history):
                     return {"labels": labels, "nontrivial": True, "violation": {"kind": "history-verdict", "detail": "probe move returning False recorded with a verdict"}}
+        # weights re-tuned while the step's generator is being consumed ("dynamic change of the probabilities between
+        # moves"): a due entry parked at weight 0 gets all the weight after the first slot -> every later free slot is it
+        if case["cycles"] >= 3 and len(case["table"]) >= 2 and all(t[2] == 0 for t in case["table"]):
+            mc3 = make_mc(dict(case, table=[[1, 1.0, 0], [1, 0.0, 0]] + [[1, 0.0, 0] for _ in case["table"][2:]]))
+            mc3.step_count = 0
+            n0, n1 = name_of(case, 0), name_of(case, 1)
+            seen = []
+            for k, nm in enumerate(mc3.yield_moves()):
+                seen.append(str(nm))
+                if k == 0:
+                    mc3.moves[n0].probability, mc3.moves[n1].probability = 0.0, 1.0 * float(case.get("wscale", 1.0))
+            labels.append("weights-swapped-inside-a-step")
+            if seen[:1] != [n0] or any(x != n1 for x in seen[1:]) or len(seen) != case["cycles"]:
+                return {"labels": labels, "nontrivial": True, "key": key, "violation": {"kind": "in-step-reweight", "detail": f"cycles={case['cycles']}: entry {n0!r} had all the weight for the first slot, then {n1!r} (parked at 0) got it all: scheduled {seen}"}}
         # over-commit guard
         total_min = sum(t[2] for t in case["table"])
         room = case["cycles"] - total_min
